@@ -7,6 +7,8 @@
         | (n7 n<t> x<line> n<cap>)  m_t.UnmarshalText("data: <line>\n\n")
         | (n8 n<t> x<type> lineopt n<cap>)  m_t.UnmarshalText("event: <type>\n" ++ ("data: <line>\n")? ++ "\n"): an event
           that may carry no data line at all
+        | (n10 n<t> n<kind>)  Joe.Publish(m_t) through a Joe whose replayer (kind as in op 6, an instance of its own) accepts or
+          refuses it: whatever Joe and the replayer do, no member of the family changes
         | (n9 n<s>)  the ValidReplayers' clock advances by s seconds (TTL 1000 s) and GC() is called on them
         | (n6 n<t> n<replayer: 0 finite auto, 1 valid auto, 2 finite manual, 3 valid manual>)  Put; with automatic IDs the
           returned copy joins the family; with explicit IDs (and for every rejected Put) nothing at all happens to any message
@@ -26,6 +28,7 @@ Definition dec_hop (s : hrun_state) (op : val) : list hop * hrun_state :=
   | 4%N => ([HClone t], s)
   | 5%N => ([HReset t], s)
   | 9%N => ([], s)   (* the ValidReplayers' clock advances and they collect: no message of the family is concerned *)
+  | 10%N => ([], s)  (* member t is published through a Joe with a replayer of its own: nothing happens to any member *)
   | 7%N => (* UnmarshalText("data: <line>\n\n"): reset(), then one data chunk is appended *)
            ([HReset t; HAppend t [(mkc (as_b (nth_val 2 op)) false, as_nat (nth_val 3 op))]], s)
   | 8%N => (* reset(), the type is set, then at most one data chunk is appended *)
@@ -75,6 +78,7 @@ Definition dec_vop_heap (s : vrun_state) (op : val) : list hop * vrun_state :=
   | 4%N => ([HClone t], s)
   | 5%N => ([HReset t], s)
   | 9%N => ([], s)
+  | 10%N => ([], s)
   | 7%N => ([HReset t; HAppend t [(mkc (as_b (nth_val 2 op)) false, 0)]], s)
   | 8%N => ([HReset t; HSetType t (Some (as_b (nth_val 2 op)))] ++
             match as_opt as_b (nth_val 3 op) with
